@@ -109,35 +109,38 @@ Definition mon_accept (check_len : bool) (l : list Z) (impl : list (list Z)) : l
 
 (* kind 11: nothing is skipped silently — every non-blank, non-comment line before
    the end marker is one instruction or one directive *)
-Definition significant (raw : text) : bool :=
+Inductive lkind := KSkip | KEnd | KDirective | KInstr.
+Definition line_fields (raw : text) : list text := fields (commas_to_spaces (before_semicolon (lower raw))).
+Definition line_kind (legacy : bool) (raw : text) : lkind :=
   match raw with
-  | 59%N :: _ => false
-  | _ => match fields (commas_to_spaces (before_semicolon raw)) with [] => false | _ => true end
+  | [] => KSkip
+  | 59%N :: _ => KSkip
+  | _ =>
+    match line_fields raw with
+    | [] => KSkip
+    | [w] => if text_eqb w (s2t "end") then KEnd else if text_eqb w (s2t "org") then KDirective else KInstr
+    | [w; _] => if text_eqb w (s2t "end") then (if legacy then KEnd else KDirective)
+                else if text_eqb w (s2t "org") then KDirective else KInstr
+    | w :: _ => if text_eqb w (s2t "org") || text_eqb w (s2t "end") then KDirective else KInstr
+    end
   end.
-Fixpoint lines_before_end (ls : list text) : list text :=
+(* instruction-bearing lines before the end marker *)
+Fixpoint count_instr (legacy : bool) (ls : list text) : nat :=
   match ls with
-  | [] => []
-  | l :: t => if significant l then
-                match fields (commas_to_spaces (before_semicolon (lower l))) with
-                | [w] => if text_eqb w (s2t "end") then [] else l :: lines_before_end t
-                | [w; _] => if text_eqb w (s2t "end") then [l] else l :: lines_before_end t
-                | _ => l :: lines_before_end t
-                end
-              else lines_before_end t
-  end.
-Definition is_directive_line (l : text) : bool :=
-  match fields (commas_to_spaces (before_semicolon (lower l))) with
-  | w :: _ => text_eqb w (s2t "org") || text_eqb w (s2t "end")
-  | [] => false
+  | [] => O
+  | l :: t => match line_kind legacy l with
+              | KEnd => O
+              | KInstr => S (count_instr legacy t)
+              | _ => count_instr legacy t
+              end
   end.
 Definition mon_no_skip (l : list Z) (impl : list (list Z)) : list (list Z) :=
   match rd_cfg l with
   | Some (cfg, t) =>
     match find_tag 71 impl with
     | Some (_ :: _ :: n :: _) =>
-      let ls := lines_before_end (read_lines (to_text t) []) in
-      let instrs := length (filter (fun x => negb (is_directive_line x)) ls) in
-      if Z.of_nat instrs =? n then [] else [[55; Z.of_nat instrs; n]]
+      let k := count_instr (c_mode cfg =? 0)%N (read_lines (to_text t) []) in
+      if Z.of_nat k =? n then [] else [[55; Z.of_nat k; n]]
     | _ => []
     end
   | None => []
